@@ -17,7 +17,7 @@ def run(ctx):
     for f in fails:
         case = vlib.nth_line(rec, f["index"])
         for reason in f["reasons"]:
-            if reason[0] != "same-variable-different-code":
+            if reason[0] not in ("same-variable-different-code", "rejected-candidate-left-bindings"):
                 continue
             vlib.report_failure(ctx, {"reason": reason[0], "strictness": reason[1]},
                                 {"record": {"id": case["id"], "pattern": case["pattern"], "cand": case["cand"], "outs": case["outs"]},
